@@ -170,6 +170,9 @@ class Atoms(BaseObject):
         self._Omega = abs(xp.linalg.det(self._a))
         if hasattr(self, "kpts"):
             self.kpts.a = self._a
+            # The k-points depend on the cell, regenerate them in the next build
+            if self.kpts.kmesh is not None or self.kpts.path is not None:
+                self.kpts.is_built = False
         # The cell changes when changing a
         self.is_built = False
 
